@@ -1,4 +1,4 @@
-CONSTANT Mode = "both"
+CONSTANT Mode = "content"
 INIT TraceInit
 NEXT TraceNext
 CONSTRAINT HwmConstraint
